@@ -6,6 +6,7 @@ import Bip39V.Model.Seed
 import Bip39V.Model.Stringer
 import Bip39V.Model.Tool
 import Bip39V.Model.GoSem
+import Bip39V.Model.GoMap
 import Bip39V.Spec.Bip39
 import Bip39V.Unicode.XText
 import Bip39V.Crypto.Sha
@@ -127,6 +128,52 @@ def prim (op : String) (a : List String) : String :=
       | _, _, _ => "bad-op"
     | _, _ => "bad-op"
 
+/-- the concrete-state vocabulary of the translated `Language.mapping` (`Model/GoMap.lean`) on a
+script of operations, so that the harness can compare it with real Go maps and `sync.Once`:
+`M<v>` (v = make), `A<v>:<hexkey>:<int>` (v[k] = x), `G<v>:<hexkey>` (print v[k]), `N<v>` (print
+whether v is nil), `O<c>(op;op;…)` (cell c .Do(func(){…}) with M/A ops inside). -/
+def mapOp1 (tok : String) : Option (Go.MC (Option String)) :=
+  match tok.toList with
+  | 'M' :: v => (String.ofList v).toNat?.map fun v => Go.bindC (Go.setMapVar v Go.makeMap) fun _ => Go.pureC none
+  | 'N' :: v => (String.ofList v).toNat?.map fun v => Go.bindC (Go.getMapVar v) fun m => Go.pureC (some (if m.isNone then "nil" else "nonnil"))
+  | 'A' :: rest =>
+    match (String.ofList rest).splitOn ":" with
+    | [v, k, x] => do
+      let v ← v.toNat?; let k ← strOfHex k; let x ← x.toInt?
+      pure (Go.bindC (Go.mapAssign v k x) fun _ => Go.pureC none)
+    | _ => none
+  | 'G' :: rest =>
+    match (String.ofList rest).splitOn ":" with
+    | [v, k] => do
+      let v ← v.toNat?; let k ← strOfHex k
+      pure (Go.bindC (Go.getMapVar v) fun m => Go.pureC (some (match Go.mapGet m k with | some x => toString x | none => "none")))
+    | _ => none
+  | _ => none
+def mapSeq (ops : List (Go.MC (Option String))) : Go.MC (List String) :=
+  match ops with
+  | [] => Go.pureC []
+  | o :: r => Go.bindC o fun out => Go.bindC (mapSeq r) fun outs => Go.pureC (match out with | some s => s :: outs | none => outs)
+def mapOp (tok : String) : Option (Go.MC (Option String)) :=
+  match tok.toList with
+  | 'O' :: rest =>
+    let str := String.ofList rest
+    match str.splitOn "(" with
+    | [c, body] => do
+      let c ← c.toNat?
+      let inner ← ((body.dropEnd 1).toString.splitOn ";").filter (· ≠ "") |>.mapM mapOp1
+      pure (Go.bindC (Go.onceDo c (Go.bindC (mapSeq inner) fun _ => Go.pureC ())) fun _ => Go.pureC none)
+    | _ => none
+  | _ => mapOp1 tok
+def primMap (toks : List String) : String :=
+  match toks.mapM mapOp with
+  | none => "bad-op"
+  | some ops =>
+    let s0 : Go.CPkg := { once := fun _ => false, maps := fun _ => none }
+    match (mapSeq ops s0).1 with
+    | .ok outs => if outs.isEmpty then "ok" else "ok " ++ " ".intercalate outs
+    | .err e => "err " ++ errName e
+    | .panic p => "panic " ++ panicName p
+
 def answer (line : String) : String :=
   match (line.trimAscii.toString.splitOn " ").filter (· ≠ "") with
   | ["enc", l, h] =>
@@ -225,6 +272,7 @@ def answer (line : String) : String :=
     match unhex hp, unhex hs, it.toNat?, n.toNat? with
     | some p, some s, some it, some n => s!"M ok {hexOf (Crypto.S512.pbkdf2 p s it n)}\tS ok {hexOf (PB p s it n)}"
     | _, _, _, _ => "bad-op"
+  | "primmap" :: toks => s!"M {primMap toks}\tS -"
   | "prim" :: op :: args => s!"M {prim op args}\tS -"
   | ["word", l, i] =>     -- the i-th word of the model's list() and of the canonical list
     match l.toInt?, i.toNat? with
